@@ -29,6 +29,7 @@ fn all_distractors(n_terms: usize) -> Vec<Distractor> {
         Distractor::GeneMinimalColumns,
         Distractor::ExtraTags,
         Distractor::TagsBetweenIsA,
+        Distractor::ExplicitNotObsolete,
         Distractor::MissingDataVersion,
         Distractor::ExtraHeaderLines,
         Distractor::NoTrailingNewline,
@@ -66,7 +67,7 @@ pub fn run(ctx: &mut Ctx) {
         "release years have four digits".into(),
     ];
     let family: Vec<(Facts, String)> = format_family(if thorough { 4 } else { 4 }, if thorough { 1 } else { 6 }).into_iter().map(|(f, w)| (textual(&f), w)).collect();
-    ctx.space("family/orders-and-single-distractors", &format!("{} fact sets x (all stanza orders + gene-row orders + disease-row orders + is_a lines reversed + 21 single distractors) x from_standard, a subset also through from_standard_transitive; differential against Builder and binary", family.len()));
+    ctx.space("family/orders-and-single-distractors", &format!("{} fact sets x (all stanza orders + gene-row orders + disease-row orders + is_a lines reversed + 22 single distractors) x from_standard, a subset also through from_standard_transitive; differential against Builder and binary", family.len()));
     for (f, what) in &family {
         if !ctx.take() {
             continue;
@@ -140,7 +141,7 @@ pub fn run(ctx: &mut Ctx) {
             let mut o = JaxOpts::default();
             o.distractors = vec![d.clone()];
             with_opts(ctx, f, &o, false, &format!("distractor {d:?}"));
-            if matches!(d, Distractor::GeneHeader(_) | Distractor::GeneTrailingColumns | Distractor::GeneMinimalColumns | Distractor::Typedef(_) | Distractor::ExtraTags | Distractor::TagsBetweenIsA) {
+            if matches!(d, Distractor::GeneHeader(_) | Distractor::GeneTrailingColumns | Distractor::GeneMinimalColumns | Distractor::Typedef(_) | Distractor::ExtraTags | Distractor::TagsBetweenIsA | Distractor::ExplicitNotObsolete) {
                 with_opts(ctx, f, &o, true, &format!("distractor {d:?} (transitive loader)"));
             }
         }
@@ -151,7 +152,7 @@ pub fn run(ctx: &mut Ctx) {
     let bases: Vec<&(Facts, String)> = family.iter().filter(|(f, _)| [Kind::Gene, Kind::Omim, Kind::Orpha].iter().all(|k| f.anns.iter().any(|a| a.kind == *k)) && f.terms.len() >= 3).collect();
     let step = (bases.len() / if thorough { 40 } else { 10 }).max(1);
     let bases: Vec<&(Facts, String)> = bases.into_iter().step_by(step).collect();
-    ctx.space("bases/pairs-of-distractors", &format!("{} base fact sets x all 210 unordered pairs of distractors x both loaders", bases.len()));
+    ctx.space("bases/pairs-of-distractors", &format!("{} base fact sets x all 231 unordered pairs of distractors x both loaders", bases.len()));
     for (f, what) in bases {
         let ds = all_distractors(f.terms.len());
         for i in 0..ds.len() {
